@@ -11,6 +11,7 @@ import (
 	"fmt"
 	"os"
 	"path/filepath"
+	"runtime/debug"
 	"sort"
 	"strconv"
 	"strings"
@@ -90,6 +91,21 @@ func (c *Ctx) check(ok bool, site, what string, witness map[string]any) bool {
 		c.fail(site, what, witness)
 	}
 	return ok
+}
+
+// guard runs one case's oracle; a panic of the implementation inside it becomes a finding (with the
+// witness) instead of killing the harness.
+func (c *Ctx) guard(site string, wit map[string]any, f func()) {
+	defer func() {
+		if r := recover(); r != nil {
+			if s, ok := r.(string); ok && strings.HasPrefix(s, "harness") {
+				panic(r)
+			}
+			c.oracleN++
+			c.fail(site, "panic: "+firstRepoFrame(fmt.Sprintf("%v\n%s", r, debug.Stack())), wit)
+		}
+	}()
+	f()
 }
 
 type generator func(c *Ctx)
